@@ -20,7 +20,7 @@ func c01RecoveryDB() *database.Database {
 		return database.Command{Command: cmd, Description: desc, CommandLower: cmd, DescriptionLower: desc}
 	}
 	return &database.Database{Commands: []database.Command{
-		mk("aa bb", "cc"), mk("aa", "bb cc"), mk("bb aa", "aa"), mk("cc", "aa bb"), mk("aa cc", ""),
+		mk("aa bb", "cc"), mk("aa", "bb cc"), mk("bb aa", "aa"), mk("cc", "aa bb"), mk("aa cc", ""), mk("", "a note without a command"),
 	}}
 }
 
@@ -31,7 +31,9 @@ func VerifHarness_C01_Recovery() {
 	limit := verifInt("limit")
 	verifAssume(limit >= 1) // the CLI passes a validated limit (1..100)
 	q := vLetter2("q1")
-	switch verifIntRange("words", 1, 3) {
+	switch verifIntRange("words", 0, 3) {
+	case 0:
+		q = "" // library callers may pass an empty query (the CLI never does)
 	case 2:
 		q = q + " " + vLetter2("q2")
 	case 3:
